@@ -23,7 +23,8 @@ func EncodeCidSet(cids *cid.Set) datamodel.Node {
 
 // DecodeCidSet decode a cid set from data for the do-no-send-cids extension
 func DecodeCidSet(data datamodel.Node) (*cid.Set, error) {
-	if data.Kind() != datamodel.Kind_List {
+	// a null extension value decodes to a nil node
+	if data == nil || data.Kind() != datamodel.Kind_List {
 		return nil, errors.New("did not receive a list of CIDs")
 	}
 	set := cid.NewSet()
